@@ -610,6 +610,19 @@ def generate(prop, seed, tier="quick", fault_free=False):
         # a chain of called lambdas three to five deep (own sub-stream, as below)
         at = nst.randrange(len(ops) + 1)
         ops = ops[:at] + [{"op": "serve", "q": gen_nest(nst, names)}] + ops[at:]
+    dr = st.get("directed")
+    if not fault_free and config["reuse_instance"] and dr.random() < 0.5:
+        # fault placed where it creates in-flight state: a fresh process whose one transformer
+        # object has just thrown a query out mid-rewrite is handed, as its very next query, one
+        # that already carries library-style arg_N names (low numbers, the counter is young)
+        g = Gen(dr, names, reuse, helpers)
+        nm = {k: g.fresh("stage") for k in ("x", "x2", "x3")}
+        nm["s"] = g.fresh("helper")
+        low = [f"arg_{i}" for i in range(0, 6)]
+        at = dr.randrange(len(ops) + 1)
+        ops = ops[:at] + [{"op": "restart", "epoch": "module"},
+                          {"op": "serve_bad", "q": dr.choice(BAD_QUERIES).format(**nm)},
+                          {"op": "serve", "q": gen_query(dr, low, dr.choice([0.0, 0.3]), [])}] + ops[at:]
     x = st.get("faults2")
     if not fault_free and x.random() < 0.05:
         at = x.randrange(len(ops) + 1)
